@@ -361,6 +361,104 @@ func (rn *Runner) SetParams(ps PSet) {
 	rn.St.Count("params-changed")
 }
 
+// RawCoin is one entry of a collateral list exactly as offered to MsgUpdateParams (no sorting, no
+// merging, no dropping of zero entries).
+type RawCoin struct {
+	Denom  int // index into Denoms
+	Amount int64
+}
+
+func rawCoins(l []RawCoin) sdk.Coins {
+	cs := sdk.Coins{}
+	for _, c := range l {
+		cs = append(cs, sdk.Coin{Denom: Denoms[c.Denom], Amount: sdkmath.NewInt(c.Amount)})
+	}
+	return cs
+}
+
+func rawTerm(l []RawCoin) string {
+	xs := make([]string, len(l))
+	for i, c := range l {
+		xs[i] = fmt.Sprintf("(%d, %s)", c.Denom, emit.ZI(c.Amount))
+	}
+	return emit.List(xs)
+}
+
+// OfferCollateral asks the real MsgUpdateParams whether it takes the two collateral lists as they
+// are written; the answer is a case of its own (compared with sdk.Coins validity in Coq). Whatever is
+// accepted is the parameter set from here on.
+func (rn *Runner) OfferCollateral(pc, ic []RawCoin) bool {
+	err := rn.W.SetParams(func(p *datypes.Params) {
+		p.PublishDataCollateral, p.SubmitInvalidityCollateral = rawCoins(pc), rawCoins(ic)
+	})
+	rn.invalidate()
+	ok := err == nil
+	rn.St.Count(fmt.Sprintf("offer-collateral:%v", ok))
+	if rn.Prof.Prop == "C08" {
+		rn.CF.Add(fmt.Sprintf("PCase %s %s %s", rawTerm(pc), rawTerm(ic), emit.Bool(ok)))
+		info := map[string]any{"kind": "offer-collateral-params", "publish_collateral": fmt.Sprint(pc), "invalidity_collateral": fmt.Sprint(ic), "accepted": ok, "tag": rn.tag}
+		if err != nil {
+			info["err"] = err.Error()
+		}
+		rn.St.Info(info)
+		rn.St.Evaluations++
+	}
+	return ok
+}
+
+// odd collateral lists: zero entries mixed with positive ones, duplicates, unsorted, negative, empty
+var oddLists = [][]RawCoin{
+	{{0, 100}, {1, 0}}, {{0, 0}, {1, 5}}, {{0, 0}}, {{0, 100}, {0, 100}}, {{1, 5}, {0, 100}}, {{0, -5}}, {{0, 100}, {1, -1}},
+	{}, {{0, 100}}, {{0, 60}, {1, 2}}, {{1, 9}},
+}
+
+// lifeCycle: with the parameters in force, one item is published, challenged over the threshold by
+// two accounts and rejected, while another item stays open.
+func (rn *Runner) lifeCycle() {
+	a := func(i int) int { return rn.W.AcctIDs[i] }
+	u, res := rn.Publish(a(0), 2, 0)
+	if res != 0 {
+		return
+	}
+	rn.Inval(a(1), u, 0)
+	rn.Inval(a(2), u, 1)
+	_, post, _ := rn.EndBlock()
+	it := findItem(post, u)
+	if it == nil || rn.BlockFailed {
+		return
+	}
+	rn.BlockAt(ns(it.Ts + int64(rn.dump().Prm.PP)))
+}
+
+// OddCollateral: ask the real validation about collateral lists outside the domain of valid
+// sdk.Coins, and live with whatever it accepts.
+func (rn *Runner) OddCollateral() {
+	rn.tag = "corpus:odd-collateral"
+	rn.NewWorldN(6, false)
+	rn.SetParams(PSet{Thr: "0.5", RF: "1", CP: 10 * time.Second, PP: 10 * time.Second, Rej: 12 * time.Second, Ver: 12 * time.Second,
+		PC: [2]int64{1000, 7}, IC: [2]int64{100, 3}})
+	rn.Publish(rn.W.AcctIDs[3], 4, 0) // stays open for a while: its collateral is what an over-payment would eat
+	rn.Publish(rn.W.AcctIDs[3], 4, 0)
+	rn.EndBlock()
+	good := []RawCoin{{0, 1000}, {1, 7}}
+	for i, l := range oddLists {
+		if rn.BlockFailed {
+			return
+		}
+		var ok bool
+		if i%2 == 0 {
+			ok = rn.OfferCollateral(good, l) // odd invalidity collateral
+		} else {
+			ok = rn.OfferCollateral(l, []RawCoin{{0, 100}})
+		}
+		if ok {
+			rn.lifeCycle()
+		}
+	}
+	rn.OfferCollateral(good, []RawCoin{{0, 100}, {1, 3}})
+	rn.finish()
+}
+
 // ---------- world construction ----------
 
 func (rn *Runner) NewWorld(jail bool) { rn.NewWorldN(6, jail) }
@@ -1235,6 +1333,13 @@ func (rn *Runner) RandomWorld(nOps int, k int) {
 		if r.Chance(1, 12) {
 			rn.SetParams(rn.randParams())
 		}
+		if r.Chance(1, 25) { // ask the real validation about an odd collateral list
+			if r.Bool() {
+				rn.OfferCollateral([]RawCoin{{0, 1000}}, emit.Pick(r, oddLists...))
+			} else {
+				rn.OfferCollateral(emit.Pick(r, oddLists...), []RawCoin{{0, 100}})
+			}
+		}
 	}
 	rn.finish()
 }
@@ -1247,6 +1352,7 @@ func Run(prof Profile, seed int64, n int, outDir string) error {
 	rn.SameBlock()
 	rn.FreePublishing()
 	rn.Spelling()
+	rn.OddCollateral()
 	rn.RejectShares()
 	if zeroGuarded(prof) {
 		rn.ZeroThreshold()
